@@ -29,6 +29,9 @@ CONSTANTS MaxBlocks,        \* L2 blocks 1..MaxBlocks
           StoreFaults,      \* may a SaveLastSentCertificate attempt fail (it is retried)?
           LoseDB,           \* may the certificate DB be lost while the node is down?
           HeaderHasPrev,    \* Agglayer headers carry prev_local_exit_root
+          Mode,             \* "pp": PPFlow (retry covers [from, synced], empty ranges are not certified)
+                            \* "fep": AggchainProverFlow (retry resends exactly the InError range; a new range ends where the prover's
+                            \*        proof ends; empty certificates are sent)
           FixedF4           \* start-up reconciliation: "no" = as found (finding F4), "v1" = first repair attempt (adopts the
                             \* Agglayer's replacement with retry count 0: later save collides in the history table), "v2" = the repair
 
@@ -111,18 +114,20 @@ CheckPending(fail) ==
 -----------------------------------------------------------------------------
 (* building the next certificate from the local view d (flow_base.go) *)
 NoCert == [none |-> TRUE]
-NextCert(d) ==
+NextCert(d, pe) ==     \* pe: the block at which the prover's proof ends (fep; 0 = as requested)
   LET has  == d # <<>>
       lh   == IF has THEN CHOOSE h \in DOMAIN d : \A k \in DOMAIN d : k <= h ELSE -1
       last == d[lh]
       inErr == has /\ last.st = "InError"
+      sameRange == Mode = "fep" /\ inErr                                 \* fep: "resending the same InError certificate"
       prevTo == IF ~has THEN 0 ELSE IF inErr /\ last.from > 0 THEN last.from - 1 ELSE last.to
       retry  == IF inErr THEN last.retry + 1 ELSE 0
       from == prevTo + 1
-      to0 == synced
-      to  == IF MaxCertBlocks > 0 /\ to0 - from + 1 > MaxCertBlocks THEN from + MaxCertBlocks - 1 ELSE to0
-  IN IF prevTo >= synced THEN NoCert                                  \* errNoNewBlocks
-     ELSE IF Exits(from, to) = 0 THEN NoCert                          \* PPFlow: nothing to certify in the range
+      to0 == IF sameRange THEN last.to ELSE synced
+      to1 == IF MaxCertBlocks > 0 /\ to0 - from + 1 > MaxCertBlocks THEN from + MaxCertBlocks - 1 ELSE to0
+      to  == IF Mode = "fep" /\ ~sameRange /\ pe >= from /\ pe < to1 THEN pe ELSE to1      \* adjustBlockRange
+  IN IF ~sameRange /\ prevTo >= synced THEN NoCert                    \* errNoNewBlocks
+     ELSE IF Mode = "pp" /\ Exits(from, to) = 0 THEN NoCert            \* PPFlow: nothing to certify in the range
      ELSE IF has /\ Open(last.st) THEN [err |-> "last certificate not closed"]
      ELSE LET height == IF ~has THEN 0 ELSE IF inErr THEN last.h ELSE last.h + 1
               prev == IF ~has THEN 0
@@ -136,8 +141,8 @@ NextCert(d) ==
 IsCert(c) == "h" \in DOMAIN c
 
 (* sendCertificate with outcome o *)
-SendCert(d, o) ==
-  LET c == NextCert(d) IN
+SendCert(d, o, pe) ==
+  LET c == NextCert(d, pe) IN
   IF ~IsCert(c) \/ o = "sendfail" \/ o = "crash_before_submit"
   THEN [ag |-> ag, db |-> d, ht |-> histT, crashed |-> IsCert(c) /\ o = "crash_before_submit", sent |-> FALSE]
   ELSE LET ag2 == Append(ag, [h |-> c.h, st |-> "Pending", from |-> c.from, to |-> c.to, prev |-> c.prev, new |-> c.new])
@@ -150,17 +155,18 @@ SendCert(d, o) ==
 Outcomes == {"ok"} \cup (IF CallFailures THEN {"sendfail"} ELSE {})
                    \cup { "crash_" \o c : c \in Crashes }
 
-Tick(kind, checkFails, o) ==
+Tick(kind, checkFails, o, pe) ==
   /\ up /\ ready
   /\ Len(ag) < MaxCerts \/ o = "ok"
   /\ LET r == CheckPending(checkFails)
          doSend == IF kind = "epoch" THEN ~r.pending ELSE (~r.pending /\ r.newInError /\ RetryImm)
-         s == IF doSend THEN SendCert(r.db, o) ELSE [ag |-> ag, db |-> r.db, ht |-> histT, crashed |-> FALSE, sent |-> FALSE]
+         s == IF doSend THEN SendCert(r.db, o, pe) ELSE [ag |-> ag, db |-> r.db, ht |-> histT, crashed |-> FALSE, sent |-> FALSE]
      IN /\ Len(s.ag) <= MaxCerts
-        /\ (o # "ok" => doSend /\ IsCert(NextCert(r.db)))       \* a fault is only explored where it can strike
+        /\ (o # "ok" => doSend /\ IsCert(NextCert(r.db, pe)))   \* a fault is only explored where it can strike
+        /\ (pe # 0 => doSend /\ IsCert(NextCert(r.db, pe)) /\ NextCert(r.db, pe).to = pe)   \* a prover cap only where it bites
         /\ ag' = s.ag /\ db' = s.db /\ histT' = s.ht
         /\ up' = ~s.crashed /\ ready' = (ready /\ ~s.crashed)
-  /\ Step([a |-> "tick", kind |-> kind, checkfail |-> checkFails, o |-> o])
+  /\ Step([a |-> "tick", kind |-> kind, checkfail |-> checkFails, o |-> o, pe |-> pe])
   /\ UNCHANGED <<l2, synced>>
 
 -----------------------------------------------------------------------------
@@ -224,7 +230,8 @@ Restart(checkFails) ==
 Next ==
   \/ \E nb \in 0..MaxBridges : NewBlock(nb)
   \/ \E i \in DOMAIN ag, st \in {"Proven", "Candidate", "Settled", "InError"} : AgMove(i, st)
-  \/ \E k \in {"epoch", "status"}, f \in (IF CallFailures THEN BOOLEAN ELSE {FALSE}), o \in Outcomes : Tick(k, f, o)
+  \/ \E k \in {"epoch", "status"}, f \in (IF CallFailures THEN BOOLEAN ELSE {FALSE}), o \in Outcomes,
+        pe \in (IF Mode = "fep" THEN 0..MaxBlocks ELSE {0}) : Tick(k, f, o, pe)
   \/ Crash \/ DbLoss
   \/ \E f \in (IF CallFailures THEN BOOLEAN ELSE {FALSE}) : Restart(f)
 
@@ -275,5 +282,5 @@ F4Free == ~StuckAfterOwnCrash \/ ~ENABLED Restart(FALSE) \/ Reconcile(CheckPendi
 NeverRefuses == (~up \/ ~ready) => Reconcile(CheckPending(FALSE).db).ok
 
 -----------------------------------------------------------------------------
-Dump == PrintT(<<"CASE", ToJson([cfg |-> [retryimm |-> RetryImm, maxblocks |-> MaxCertBlocks, hasprev |-> HeaderHasPrev], steps |-> hist'])>>)
+Dump == PrintT(<<"CASE", ToJson([cfg |-> [retryimm |-> RetryImm, maxblocks |-> MaxCertBlocks, hasprev |-> HeaderHasPrev, mode |-> Mode], steps |-> hist'])>>)
 =============================================================================
